@@ -334,7 +334,8 @@ def _pair(rng, coplanar_only=False):
     rv, cv = o[:3], o[3:]
     n = _cross(rv, cv)
     rel = rng.choice(['same', 'shift', 'scaled', 'inplane', 'flip'] if coplanar_only else
-                     ['same', 'shift', 'scaled', 'inplane', 'flip', 'eps', 'offplane', 'offplane', 'tilt', 'tilt'])
+                     ['same', 'shift', 'scaled', 'inplane', 'flip', 'eps', 'offplane', 'offplane', 'tilt', 'tilt',
+                      'mirror', 'mirror'])
     g2 = dict(g)
     a, b = rng.randint(-9, 9), rng.randint(-9, 9)
     g2['pos'] = _S(_ref_of(g, F(a), F(b)))
@@ -356,7 +357,18 @@ def _pair(rng, coplanar_only=False):
         g2['sp'] = [g['sp'][1], g['sp'][0]]
     elif rel == 'eps':
         g2['pos'] = _S([F(x) + F(1, 10**7) * n[i] for i, x in enumerate(g2['pos'])])   # within tolerance
-    elif rel == 'offplane':
+    if rel == 'mirror':
+        # parallel (or anti-parallel) plane at the same distance on the OPPOSITE side of the
+        # frame-of-reference origin: pos2 . n = -(pos . n) != 0
+        d = sum(F(x) * n[i] for i, x in enumerate(g2['pos']))
+        if abs(d) < F(1, 100):
+            rel = 'offplane'
+        else:
+            g2['pos'] = _S([F(x) - 2 * d * n[i] for i, x in enumerate(g2['pos'])])
+            if rng.random() < 0.5:
+                g2['ori'] = _S(cv + rv)                                # opposite normal as well
+                g2['sp'] = [g['sp'][1], g['sp'][0]]
+    if rel == 'offplane':
         d = rng.choice([F(1, 1000), F(1, 2), F(-3), F(7, 4)])
         g2['pos'] = _S([F(x) + d * n[i] for i, x in enumerate(g2['pos'])])
     elif rel == 'tilt':
@@ -1351,7 +1363,7 @@ def oracle(c, out):
             return f'{k} = {res}, expected {idx}'
         return None
     if k in ('p2p', 'i2i'):
-        copl = c['rel'] not in ('offplane', 'tilt')
+        copl = c['rel'] not in ('offplane', 'tilt', 'mirror')
         if not copl:
             return None if _is_err(out, 'ValueError') else f'non-coplanar pair ({c["rel"]}) accepted'
         if _is_err(out) or _is_err(out[1]):
@@ -1369,7 +1381,7 @@ def oracle(c, out):
             return f'{k} = {out[1]}, via the frame of reference {want}'
         return None
     if k == 'coplanar':
-        want = c['rel'] not in ('offplane', 'tilt')
+        want = c['rel'] not in ('offplane', 'tilt', 'mirror')
         return None if out == want else f'_are_images_coplanar = {out} for a {c["rel"]} pair'
     if k == 'map_pixel':
         if _is_err(out):
